@@ -26,8 +26,15 @@ RULE = ("exhaustive: every non-empty directed graph (self-loops, antiparallel ed
         "outgoing_edges() / neighbours() and written once, then weights of existing edges are overwritten with add_edge "
         "(no new neighbour), new edges / nodes are added and the SAME object is the instance under test; or the first "
         "file is parsed into a new object, that object is written again (must be byte-identical), modified and then "
-        "tested. Per case: (h) edges()/nodes() of the instance under test = the model's add_node/add_edge semantics "
-        "applied to the whole call history (weights compared as repr tokens); (a) model-parse(impl.write(i)) = content "
+        "tested. OBJECT LIFETIME cases (2 of 7 random cases + tiny graphs): instance A is built, then a second instance "
+        "B with the same ordered id pairs and other weights, B's text is parsed header_only into a third object and "
+        "refused by the type gate as 'soc'; then A is written / re-read and judged against A's PAYLOAD, then B against "
+        "B's. Name dicts in discovery, shuffled or descending id order, on all or on a subset of the nodes; numpy.int64 "
+        "ids and numpy.float64 weights; double blanks, tabs, U+00A0 inside values, names starting with a blank / tab. "
+        "After every observation the sets returned by edges() / outgoing_edges() are modified in place and the "
+        "observation is repeated (purity / aliasing). Per case: (h) edges()/nodes()/alternatives_name of the instance "
+        "under test = what its PAYLOAD says: the model's add_node/add_edge semantics applied to the whole call history "
+        "(weights compared as repr tokens), never the instance's live accessors; (a) model-parse(impl.write(i)) = content "
         "of i, by readlines and by splitlines; (b) impl.parse_file and impl.parse_str of impl.write(i) = i: edges() with "
         "bitwise weights, outgoing_edges/neighbours of incident nodes, incident node set, names, num_alternatives, "
         "num_edges = |edges|, num_voters = num_alternatives; (c) impl.write(impl.parse(impl.write(i))) byte-identical; "
@@ -186,20 +193,46 @@ def has_inner_break(payload):
 
 
 # ------------------------------------------------------------------------------------------------ generation
-def mk_case(meta, nv, alts, ops, ops2=(), mode=0, **tags):
+F_SPARSE, F_NPID, F_NPW = 1, 2, 4      # payload flags: names on a subset of the nodes only; numpy.int64 ids; numpy.float64 weights
+
+
+def mk_case(meta, nv, alts, ops, ops2=(), mode=0, flags=0, **tags):
     """meta: 9 strings; nv: num_voters before writing; alts: [(id, name)]; ops: [0, n] | [1, n1, n2, bits].
     History cases: ops2 non-empty or mode = 1.  mode 0: the object built by ops is observed (edges, outgoing_edges,
     neighbours) and written once, then ops2 is applied to the SAME object, which is the instance under test.
     mode 1: the file written from ops is parsed into a new object, that object is written again, then modified by
-    ops2; the result is the instance under test."""
-    payload = [[proto.text(s) for s in meta], nv, [[a, proto.text(nm)] for a, nm in alts], list(ops), list(ops2), mode]
+    ops2; the result is the instance under test.
+    mode 2 (object lifetime): instance A is built from ops, then a second instance B from ops2 (same ids, other weights),
+    B's text is parsed header_only into a third object and offered to the type gate as 'soc'; THEN A is written and
+    tested against its payload, then B."""
+    payload = [[proto.text(s) for s in meta], nv, [[a, proto.text(nm)] for a, nm in alts], list(ops), list(ops2), mode,
+               flags]
     return case("c09.roundtrip", payload, **tags)
 
 
 def unpack(payload):
+    """-> meta, nv, alts, ops, ops2, mode  (the flags are read with flags_of)"""
     if len(payload) == 4:
         return list(payload) + [[], 0]
-    return payload
+    return list(payload[:6])
+
+
+def flags_of(payload):
+    return payload[6] if len(payload) > 6 else 0
+
+
+def expected_names(payload, nodes):
+    """alternatives_name of the instance under test as the PAYLOAD defines it (see bookkeeping), for its node set"""
+    alts, fl = payload[2], flags_of(payload)
+    names = {}
+    for a, nm in alts:
+        if a in nodes and a not in names:
+            names[a] = proto.untext(nm)
+    if not fl & F_SPARSE:
+        for n in nodes:
+            if n >= 0 and n not in names:
+                names[n] = "Alternative %d" % n
+    return sorted([a, nm] for a, nm in names.items())
 
 
 def default_meta(rng=None):
@@ -313,11 +346,43 @@ def generate(tier, seed):
                     stored.append((a, b))
                 else:
                     ops2.append([0, rng.randint(lo, hi + 7)])
+        elif i % 7 in (2, 5):                                         # object lifetime: a sibling instance B
+            mode = 2
+            for o in ops:
+                if o[0] == 1 and rng.random() < 0.85:                 # same ordered id pair, another weight
+                    ops2.append([1, o[1], o[2], rand_weight_bits(rng)])
+                elif o[0] == 0 and rng.random() < 0.5:
+                    ops2.append(o)
+            if not any(o[0] == 1 for o in ops2):
+                e = next(o for o in ops if o[0] == 1)
+                ops2.append([1, e[1], e[2], rand_weight_bits(rng)])
+            for _ in range(rng.randint(0, 2)):
+                ops2.append([1, rng.choice(ids), rng.choice(ids), rand_weight_bits(rng)])
+            rng.shuffle(ops2)
+        flags = 0
+        if i % 5 == 3:
+            flags |= F_SPARSE
+        if i % 13 == 6 and all(abs(n) < 2 ** 62 for n in nodes_of_ops(ops + ops2)):
+            flags |= F_NPID
+        if i % 13 in (7, 6):
+            flags |= F_NPW
         nodes = nodes_of_ops(ops + ops2)
         named = [n for n in nodes if n >= 0]
-        if rng.random() < 0.5:
+        style = rng.random()                                          # order of the name dict: discovery / shuffled / descending
+        if style < 0.45:
             rng.shuffle(named)
+        elif style < 0.6:
+            named.sort(reverse=True)
+        if flags & F_SPARSE and len(named) > 1:
+            named = rng.sample(named, rng.randint(1, len(named) - 1))
         alts = [(n, rand_text(rng) if rng.random() < 0.7 else "Alternative %d" % n) for n in named]
+        # whitespace inside values; names that START with a blank / tab after the canonical ": " (kept by the name pattern)
+        for j in range(len(alts)):
+            r = rng.random()
+            if r < 0.05:
+                alts[j] = (alts[j][0], rng.choice([" ", "\t", "  ", "\xa0", " \t"]) + rand_text(rng, allow_empty=False))
+            elif r < 0.12:
+                alts[j] = (alts[j][0], rng.choice(["a  b", "a\tb", "a\xa0b", "x \t y", "St  Mary", "a \u3000 b", "t\t\tt"]))
         meta = default_meta(rng)
         if i % 10 in (4, 7) or (i % 10 == 1 and tier != "quick"):     # line-boundary characters INSIDE values (parse_file only)
             where = rng.random()
@@ -327,7 +392,13 @@ def generate(tier, seed):
             if where >= 0.4 or not alts:
                 for j in rng.sample([0, 1, 2, 4, 5, 6, 7, 8], rng.randint(1, 3)):
                     meta[j] = rand_text_lb(rng)
-        out.append(mk_case(meta, rng.choice([0, len(nodes), rng.randint(0, 99)]), alts, ops, ops2, mode, rnd=1))
+        if rng.random() < 0.15:
+            meta[rng.choice([1, 2, 4, 5])] = rng.choice(["a  b", "a\tb", "a\xa0b", "x \t y", "two  blanks", "t\t\tt"])
+        out.append(mk_case(meta, rng.choice([0, len(nodes), rng.randint(0, 99)]), alts, ops, ops2, mode, flags, rnd=1))
+    for j in range(6):                                                # object lifetime on tiny graphs
+        opsa = [[1, 1, 2, bits_of_f(0.5)], [1, 2, 1, bits_of_f(-1e16)], [1, 2, 2, bits_of_f(0.1)]][: 1 + j % 3]
+        opsb = [[1, o[1], o[2], bits_of_f(7.25 + j)] for o in opsa] + ([[1, 3, 1, bits_of_f(1 / 3)]] if j % 2 else [])
+        out.append(mk_case(default_meta(), 0, [(2, "b"), (1, "a"), (3, "c")], opsa, opsb, 2, lifetime=1))
     for j, ch in enumerate(INNER_BREAKS):
         meta = default_meta()
         if j % 2:
@@ -509,24 +580,44 @@ def _scratch(ext=".wmd"):
     return os.path.join(d, "c09_%d_%d%s" % (os.getpid(), _counter[0], ext))
 
 
-def apply_ops(inst, ops):
+def apply_ops(inst, ops, flags=0):
+    if flags & (F_NPID | F_NPW):
+        import numpy as np
+    nid = (lambda n: np.int64(n)) if flags & F_NPID else (lambda n: n)
+    wt = (lambda w: np.float64(w)) if flags & F_NPW else (lambda w: w)
     for o in ops:
         if o[0] == 0:
-            inst.add_node(o[1])
+            inst.add_node(nid(o[1]))
         else:
-            inst.add_edge(o[1], o[2], f_of_bits(o[3]))
+            inst.add_edge(nid(o[1]), nid(o[2]), wt(f_of_bits(o[3])))
 
 
-def bookkeeping(inst, alts, nv):
+def poison_views(inst):
+    """lesson 'aliasing of results': damage what the accessors returned; the instance must not notice.
+    (neighbours() returns the internal set on the unchanged tree, nodes() a dict view: both are left alone.)"""
+    junk = 10 ** 9 + 7
+    e = inst.edges()
+    if isinstance(e, set):
+        e.add((junk, junk, 1.5))
+        e.clear()
+    for n in list(inst.nodes()):
+        oe = inst.outgoing_edges(n)
+        if isinstance(oe, set):
+            oe.add((n, junk, 2.5))
+            oe.clear()
+    str(inst)
+
+
+def bookkeeping(inst, alts, nv, flags=0):
     """the redundant fields of a well-formed instance: names keyed by the nodes, counts"""
     want = {a: proto.untext(nm) for a, nm in alts}
-    names = {a: nm for a, nm in inst.alternatives_name.items() if a in inst.node_mapping}
+    names = {int(a): nm for a, nm in inst.alternatives_name.items() if a in inst.node_mapping}
     for a, nm in alts:
         if a in inst.node_mapping and a not in names:
             names[a] = want[a]
     for n in inst.node_mapping:
-        if n not in names and n >= 0:
-            names[n] = "Alternative %d" % n
+        if n not in names and n >= 0 and not flags & F_SPARSE:
+            names[int(n)] = "Alternative %d" % n
     inst.alternatives_name = names
     inst.num_alternatives = len(inst.node_mapping)
     inst.num_voters = nv
@@ -537,12 +628,13 @@ def build_instance(payload, hist):
     """returns the instance under test; hist receives what was seen on the way (history cases)"""
     from preflibtools.instances import MatchingInstance
     meta, nv, alts, ops, ops2, mode = unpack(payload)
+    fl = flags_of(payload)
     inst = MatchingInstance()
-    apply_ops(inst, ops)
+    apply_ops(inst, ops, fl)
     for f, v in zip(META_FIELDS, meta):
         setattr(inst, f, proto.untext(v))
-    bookkeeping(inst, alts, nv)
-    if not ops2 and not mode:
+    bookkeeping(inst, alts, nv, fl)
+    if (not ops2 and not mode) or mode == 2:
         return inst
     # ---- history: use the object (the graph API and write) before it is modified
     hist["first"] = observe(inst)
@@ -558,23 +650,48 @@ def build_instance(payload, hist):
         hist["paths"].append(pa2)
         inst.write(pa2)
         hist["rewrite_same"] = (_read_raw(pa2) == text_a)
-    apply_ops(inst, ops2)
-    bookkeeping(inst, alts, nv)
+    str(inst)                                                         # a maintenance call in the middle of the history
+    apply_ops(inst, ops2, fl)
+    bookkeeping(inst, alts, nv, fl)
     return inst
 
 
+def build_sibling(payload, hist):
+    """mode 2: the second instance B (ops2), a header_only parse of B's text and a parse refused by the type gate"""
+    from preflibtools.instances import MatchingInstance
+    meta, nv, alts, ops, ops2, mode = unpack(payload)
+    fl = flags_of(payload)
+    b = MatchingInstance()
+    apply_ops(b, ops2, fl)
+    for f, v in zip(META_FIELDS, meta):
+        setattr(b, f, proto.untext(v))
+    bookkeeping(b, alts, nv, fl)
+    pb = _scratch()
+    hist["paths"].append(pb)
+    b.write(pb)
+    text_b = _read_raw(pb)
+    c = MatchingInstance()
+    c.parse_str(text_b, "wmd", header_only=True)
+    hist["sib_header_only_nodes"] = len(c.node_mapping)
+    hist["sib_header_only_weights"] = len(c.weights) if not c.node_mapping else -1
+    d = MatchingInstance()
+    hist["sib_gate"] = guarded(d.parse_str, text_b, "soc")[:2]
+    hist["sib_gate_nodes"] = len(d.node_mapping)
+    return b
+
+
 def observe(inst):
-    edges = sorted([a, b, bits_of_f(w)] for a, b, w in inst.edges())
+    edges = sorted([int(a), int(b), bits_of_f(float(w))] for a, b, w in inst.edges())
     inc = sorted({e[0] for e in edges} | {e[1] for e in edges})
     return {
         "edges": edges,
         "n_edge_tuples": len(inst.edges()),
-        "nodes": sorted(inst.nodes()),
+        "nodes": sorted(int(n) for n in inst.nodes()),
         "incident": inc,
-        "out": [[n, sorted([a, b, bits_of_f(w)] for a, b, w in inst.outgoing_edges(n))] for n in inc
+        "out": [[n, sorted([int(a), int(b), bits_of_f(float(w))] for a, b, w in inst.outgoing_edges(n))] for n in inc
                 if n in inst.node_mapping],
-        "nbr": [[n, sorted(inst.neighbours(n))] for n in inc if n in inst.node_mapping],
-        "names": sorted([a, nm] for a, nm in inst.alternatives_name.items()),
+        "nbr": [[n, sorted(int(x) for x in inst.neighbours(n))] for n in inc if n in inst.node_mapping],
+        "names": sorted([int(a), nm] for a, nm in inst.alternatives_name.items()),
         "num_alternatives": inst.num_alternatives,
         "num_voters": inst.num_voters,
         "num_edges": inst.num_edges,
@@ -586,8 +703,9 @@ def model_payload(inst):
     meta = [proto.text(getattr(inst, f)) for f in META_FIELDS]
     meta += [inst.num_alternatives, inst.num_voters,
              [[a, proto.text(nm)] for a, nm in inst.alternatives_name.items()]]
-    nodes = [[n, list(s)] for n, s in inst.node_mapping.items()]
-    weights = [[[a, b], proto.text("{}".format(w))] for (a, b), w in inst.weights.items()]
+    nodes = [[int(n), [int(x) for x in s]] for n, s in inst.node_mapping.items()]
+    weights = [[[int(a), int(b)], proto.text("{}".format(w))] for (a, b), w in inst.weights.items()
+               if a in inst.node_mapping and b in inst.node_mapping[a]]
     return [meta, inst.num_edges, nodes, weights]
 
 
@@ -674,10 +792,29 @@ def impl(c):
     try:
         hist = {"paths": paths}
         pl = unpack(c["payload"])
-        inst = build_instance(pl, hist)
-        res = {"hyp": [m for o in pl[3] + pl[4] if o[0] == 1 for m in check_token(o[3])]}
+        inst = build_instance(c["payload"], hist)
+        sib = build_sibling(c["payload"], hist) if pl[5] == 2 else None
+        res = standard(inst, paths)
+        res["hyp"] = [m for o in pl[3] + pl[4] if o[0] == 1 for m in check_token(o[3])]
         res["history"] = {k: v for k, v in hist.items() if k != "paths"}
+        if sib is not None:
+            res["sib"] = standard(sib, paths)
+        return res
+    finally:
+        for p in paths:
+            try:
+                os.remove(p)
+            except OSError:
+                pass
+
+
+def standard(inst, paths):
+    """everything that is done with one instance under test"""
+    if True:
+        res = {}
         res["before"] = observe(inst)
+        poison_views(inst)
+        res["before2"] = observe(inst)
         p1 = _scratch()
         paths.append(p1)
         inst.write(p1)
@@ -691,6 +828,7 @@ def impl(c):
         res["str"], _ = _guard_obs(_parse_str, text1)
         # (c) second file
         if inst2 is not None:
+            poison_views(inst2)
             p2 = _scratch()
             paths.append(p2)
             r = guarded(inst2.write, p2)
@@ -710,12 +848,6 @@ def impl(c):
             res["d_file"], _ = _guard_obs(_parse_file, p3)
             res["d_str"], _ = _guard_obs(_parse_str, proto.untext(m[1]))
         return res
-    finally:
-        for p in paths:
-            try:
-                os.remove(p)
-            except OSError:
-                pass
 
 
 # ------------------------------------------------------------------------------------------------ model side
@@ -728,6 +860,16 @@ def oracle_requests(c, r):
         return [("c09.parse", [ac, ho, proto.text("wmd"), proto.text(fname), splitter, text])]
     if not isinstance(r, dict) or "text1" not in r:
         return []
+    pl = unpack(c["payload"])
+    if pl[5] == 2:
+        reqs = _requests_one(r, pl[3])
+        if isinstance(r.get("sib"), dict) and "text1" in r["sib"]:
+            reqs += _requests_one(r["sib"], pl[4])
+        return reqs
+    return _requests_one(r, pl[3] + pl[4])
+
+
+def _requests_one(r, ops):
     fname = proto.text("parsed.wmd")
     wmd = proto.text("wmd")
     return [("c09.parse", [0, 0, wmd, fname, 0, r["text1"]]),      # (a) readlines
@@ -735,7 +877,7 @@ def oracle_requests(c, r):
             ("c09.parse", [0, 1, wmd, fname, 0, r["text1"]]),      # (g)
             ("c09.roundtrip", r["inst"]),                          # the model's own round trip
             ("c09.build", [[0, o[1]] if o[0] == 0 else [1, o[1], o[2], proto.text(repr(f_of_bits(o[3])))]
-                           for o in unpack(c["payload"])[3] + unpack(c["payload"])[4]])]   # (h) the call history
+                           for o in ops])]                         # (h) the call history
 
 
 def model_content(mi):
@@ -833,14 +975,46 @@ def judge(c, r, mres):
     if r["hyp"]:
         return {"kind": "mismatch", "reason": "(f) codec hypothesis fails: " + "; ".join(r["hyp"][:3]),
                 "theorem": "H_read_show / H_show_* (Section hypotheses of C09_roundtrip)"}
+    pl = unpack(c["payload"])
+    if pl[5] != 2:
+        return judge_one(c, r, mres, pl[5])
+    # object lifetime: A and B live in one process; each is judged against ITS OWN payload
+    h = r["history"]
+    if h.get("sib_header_only_nodes") or h.get("sib_gate_nodes"):
+        return "lifetime: a header_only parse / a parse refused by the type gate left nodes in the new object"
+    if h.get("sib_gate") != [1, proto.E_TYPE]:
+        return "lifetime: parse_str(text, 'soc') on a MatchingInstance returned %r, TypeError expected" % (h.get("sib_gate"),)
+    bad = judge_one(c, r, mres[:5], 0, "instance A (built first, written after B was built): ")
+    if bad:
+        return bad
+    if not isinstance(r.get("sib"), dict) or len(mres) < 10:
+        return {"kind": "exception", "reason": "second instance: implementation side returned %r" % (r.get("sib"),)}
+    rb = dict(r["sib"], history={})
+    return judge_one(c, rb, mres[5:10], 0, "instance B (built second): ")
+
+
+def _prefix(bad, pre):
+    if not bad or not pre:
+        return bad
+    if isinstance(bad, dict):
+        return dict(bad, reason=pre + str(bad.get("reason")))
+    return pre + bad
+
+
+def judge_one(c, r, mres, mode, pre=""):
+    return _prefix(_judge_one(c, r, mres, mode), pre)
+
+
+def _judge_one(c, r, mres, mode):
     b = r["before"]
     if not b["edges"]:
         return {"kind": "broken-correspondence", "reason": "generated instance has no edge"}
+    if r["before2"] != b:
+        return "purity / aliasing: after the results of edges() and outgoing_edges() were modified in place, the accessors answer differently"
     if r["before_after_write"] != dict(b, meta=r["before_after_write"]["meta"]):
         return "write() changed the instance"
-    # (h) the instance is what the history of add_node / add_edge calls says (model: add_edge overwrites the weight)
+    # (h) the instance is what the PAYLOAD (history of add_node / add_edge calls) says (model: add_edge overwrites)
     m_build = mres[4]
-    mode = unpack(c["payload"])[5]
     bw = {}
     for (a, b2), tok in m_build[1]:
         bw[(a, b2)] = proto.untext(tok)
@@ -851,6 +1025,9 @@ def judge(c, r, mres):
     b_nodes = sorted(n for n, _ in m_build[0])
     if (mode == 0 and b["nodes"] != b_nodes) or not set(b["incident"]) <= set(b["nodes"]) <= set(b_nodes):
         return "(h) nodes() of the instance after its call history: %r, expected %r" % (b["nodes"], b_nodes)
+    want_names = expected_names(c["payload"], set(b["nodes"]))
+    if b["names"] != want_names:
+        return "(h) alternatives_name of the instance %r, the payload says %r" % (b["names"][:6], want_names[:6])
     if r["history"].get("rewrite_same") is False:
         return "(c) history: write(parse(file A)) is not byte-identical to file A"
     if "parsed" in r["history"]:
@@ -955,7 +1132,7 @@ def stats(c, r, m):
                ([] if v == "agree" else ["parser fidelity DISAGREE: " + v[:160]])
     b = r["before"]
     pl = unpack(c["payload"])
-    ops = pl[3] + pl[4]
+    ops = pl[3] + (pl[4] if pl[5] != 2 else [])
     es = b["edges"]
     pairs = {(a, b2) for a, b2, _ in es}
     n_add = sum(1 for o in ops if o[0] == 1)
@@ -1004,7 +1181,21 @@ def stats(c, r, m):
         labels.append("weight repr with e-")
     if any(abs(w) >= 1e16 and w == int(w) for w in ws if abs(w) < 1.8e308):
         labels.append("integer-valued weight >= 1e16")
-    if pl[4] or pl[5]:
+    fl = flags_of(c["payload"])
+    if fl & F_SPARSE:
+        labels.append("alternatives_name on a subset of the nodes only")
+    if fl & F_NPID:
+        labels.append("numpy.int64 node ids")
+    if fl & F_NPW:
+        labels.append("numpy.float64 weights")
+    nm_order = [a for a, _ in c["payload"][2]]
+    if nm_order != sorted(nm_order):
+        labels.append("alternatives_name not in ascending id order")
+    if any(t and proto.untext(t)[0] in " \t\xa0" for _, t in c["payload"][2]):
+        labels.append("a name that starts with a blank / tab (outside wf_field_rl; kept by the name pattern)")
+    if pl[5] == 2:
+        labels.append("lifetime: two instances with the same ids alive, A written after B was built; both judged against their payload")
+    elif pl[4] or pl[5]:
         labels.append("history: %s" % ("file parsed, re-written, modified, re-written" if pl[5] else
                                        "same object observed + written, modified, written again"))
         first = {(a, b2): w for a, b2, w in r["history"]["first"]["edges"]}
@@ -1036,7 +1227,15 @@ def describe(c):
     meta, nv, alts, ops, ops2, mode = unpack(c["payload"])
     d = {"metadata": dict(zip(META_FIELDS, (proto.untext(t) for t in meta))), "num_voters_before": nv,
          "alternatives_name": [[a, proto.untext(nm)] for a, nm in alts], "calls": _calls(ops)}
-    if ops2 or mode:
+    fl = flags_of(c["payload"])
+    d["flags"] = [t for bit, t in ((F_SPARSE, "names on a subset of the nodes"), (F_NPID, "numpy.int64 ids"),
+                                   (F_NPW, "numpy.float64 weights")) if fl & bit]
+    if mode == 2:
+        d["then"] = ("a SECOND MatchingInstance B is built in the same process with the calls below, B is written, its text "
+                     "parsed header_only and offered to the type gate as 'soc'; then A (calls above) is written, re-read and "
+                     "compared with its payload, then B")
+        d["calls_of_B"] = _calls(ops2)
+    elif ops2 or mode:
         d["then"] = ("edges()/outgoing_edges()/neighbours() called, instance written to file A; " +
                      ("file A parsed into a new object, that object written again; " if mode else "") +
                      "then on the same object:")
